@@ -7,6 +7,7 @@
   multiplicities, any stop (`done`, an error, `break`, `halt`, or divergence `fuel`) — and all counts.
 -/
 import JaqVerif.Lemmas.C11
+import JaqVerif.Gen.C11Defs
 
 namespace Jaq.C11
 open Jaq Out
@@ -102,6 +103,22 @@ theorem limit_eq_foreach_def (l : Nat) (n : Val) (hn : isCount n = true) (f : Ou
       exact h (le0_of_not_num hn (fun x hx => hc ⟨x, hx⟩))
     have hg : gt0 n = true := by rw [le0_gt0] at h; simpa using h
     exact limitDef_loop l f.stop hl f.vals n hx hg
+
+/-- `skip` as the `foreach` definition quoted in funs.rs:
+`if $n <= 0 then f else foreach f as $x ($n; . - 1; if . >= 0 then empty else $x end) end`
+— for integer counts of any size.  (For a fractional count `c` that definition skips ⌊c⌋
+outputs while the native skips ⌈c⌉, consistently with `limit`; the manual defines neither.) -/
+theorem skip_eq_foreach_def (n : Val) (k : Int) (h : IsIntV n k) (f : Out α) :
+    skipDef n f = skip n f := by
+  unfold skipDef skip
+  by_cases hl : le0 n = true
+  · simp [hl]
+  · rw [if_neg hl, if_neg hl]
+    have hk : 0 < k := by
+      rw [le0_int h] at hl
+      have : ¬ k ≤ 0 := by simpa using hl
+      omega
+    exact skipDef_loop f.vals f.stop n k h hk
 
 /-! ## 2. `first`, `last`, `nth`, `isempty`, `any`, `all` -/
 
@@ -346,6 +363,13 @@ theorem select_def (cond : α → Out Bool) (x : α) :
   | cons b bs ih =>
     rw [bind_mk_cons, ih]
     cases b <;> simp [Out.pure, nil]
+
+/-- **The definitions modelled in `Stream.lean` are the ones in defs.jq**: the syntax trees
+the real parser produces for `select range/1,2 repeat recurse/0,1,2 while until nth isempty
+all/0,1,2 any/0,1,2 add/0,1` in the real `jaq-core/src/defs.jq` / `jaq-std/src/defs.jq`
+(regenerated into `Gen/C11Defs.lean` on every run) equal the hand transcription `expectedDefs`
+that sits next to the Lean functions. -/
+theorem defs_as_transcribed : Gen.defs = expectedDefs := by decide
 
 /-! ## 6. Errors inside the stream -/
 
